@@ -499,7 +499,15 @@ func (v *UnixVolume) Untrash(loc string) (err error) {
 	for _, f := range files {
 		if strings.HasPrefix(f.Name(), prefix) {
 			foundTrash = true
-			err = v.os.Rename(v.blockPath(f.Name()), v.blockPath(loc))
+			// Give the untrashed copy a current timestamp, like
+			// a freshly written block: it might replace a copy
+			// that was written after this one was trashed, and
+			// must not make that block look old enough to trash.
+			ts := time.Now()
+			err = os.Chtimes(v.blockPath(f.Name()), ts, ts)
+			if err == nil {
+				err = v.os.Rename(v.blockPath(f.Name()), v.blockPath(loc))
+			}
 			if err == nil {
 				break
 			}
